@@ -10,13 +10,65 @@ use refmodel::{hex, PkCtx, SkCtx};
 use serde_json::json;
 use std::collections::{BTreeMap, HashMap, VecDeque};
 
-#[derive(Clone, Hash, PartialEq, Eq, Debug)]
+/// A state is a key pair held in memory. `pk` / `sk` are the raw bytes of the two structs (used to rebuild the objects);
+/// equality and hashing use the CANONICAL form: both serialisations plus a behaviour probe that is sensitive to every
+/// field serialisation does not cover (the cached tr): the object's own signature over a fixed message and whether the
+/// state's public key accepts it. Two objects whose polynomials are stored as different representatives of the same
+/// residues are therefore the same state, as the properties (which speak about bytes and behaviour) require.
+#[derive(Clone, Debug)]
 pub struct KState {
     pub pk: Vec<u8>,
     pub sk: Vec<u8>,
+    pub canon: Vec<u8>,
+}
+impl PartialEq for KState {
+    fn eq(&self, o: &Self) -> bool { self.canon == o.canon }
+}
+impl Eq for KState {}
+impl std::hash::Hash for KState {
+    fn hash<H: std::hash::Hasher>(&self, h: &mut H) { self.canon.hash(h) }
 }
 impl KState {
-    pub fn fp(&self) -> String { format!("{:016x}/{:016x}", fnv(&self.pk), fnv(&self.sk)) }
+    pub fn fp(&self) -> String { format!("{:016x}", fnv(&self.canon)) }
+    pub fn new(pk: &dyn PkOps, sk: &dyn SkOps) -> KState {
+        let mut canon = Vec::new();
+        let pkb = pk.to_bytes().unwrap_or_else(|p| format!("PANIC:{}", p.0).into_bytes());
+        let skb = sk.to_bytes().unwrap_or_else(|p| format!("PANIC:{}", p.0).into_bytes());
+        canon.extend_from_slice(&(pkb.len() as u32).to_le_bytes());
+        canon.extend_from_slice(&pkb);
+        canon.extend_from_slice(&skb);
+        let mut rng = ScriptRng::ok(&[0xC5u8; 32]);
+        match sk.sign(refmodel::Mode::Pure, &mut rng, b"state-probe", b"c") {
+            Ok(Ok(sig)) => {
+                canon.extend_from_slice(&fnv(&sig).to_le_bytes());
+                canon.push(match pk.verify(refmodel::Mode::Pure, b"state-probe", &sig, b"c") {
+                    Ok(true) => 1,
+                    Ok(false) => 0,
+                    Err(_) => 2,
+                });
+            }
+            _ => canon.push(0xEE),
+        }
+        KState { pk: pk.raw(), sk: sk.raw(), canon }
+    }
+    /// which canonical component differs from `o`
+    pub fn diff(&self, o: &KState) -> &'static str {
+        let n = u32::from_le_bytes(self.canon[..4].try_into().unwrap()) as usize;
+        if self.canon.len() != o.canon.len() || self.canon[..4] != o.canon[..4] {
+            return "shape of the serialisation (a call failed)";
+        }
+        if self.canon[4..4 + n] != o.canon[4..4 + n] {
+            return "public-key serialisation";
+        }
+        let tail = self.canon.len() - 9;
+        if self.canon[4 + n..tail] != o.canon[4 + n..tail] {
+            return "private-key serialisation";
+        }
+        if self.canon[tail..tail + 8] != o.canon[tail..tail + 8] {
+            return "signature produced by the private key (cached tr / K / precomputes)";
+        }
+        "acceptance of the key pair's own signature by the public key (cached tr / t1 precompute)"
+    }
 }
 
 #[derive(Clone, Copy, Debug, Hash, PartialEq, Eq, PartialOrd, Ord)]
@@ -54,7 +106,7 @@ pub fn init_state(api: &SetApi, xi: &[u8; 32], kind: Init) -> Result<KState, Str
             r.map_err(|e| format!("try_keygen_with_rng returned Err({e}) with a working RNG"))?
         }
     };
-    Ok(KState { pk: pair.0.raw(), sk: pair.1.raw() })
+    Ok(KState::new(pair.0.as_ref(), pair.1.as_ref()))
 }
 
 /// apply one action with the real API
@@ -68,26 +120,26 @@ pub fn step(api: &SetApi, s: &KState, a: Act) -> Result<KState, String> {
             let sk2 = (api.sk_from_bytes)(&b)
                 .map_err(|p| pe("PrivateKey::try_from_bytes", p))?
                 .map_err(|e| format!("PrivateKey::try_from_bytes rejected the library's own serialisation: {e}"))?;
-            Ok(KState { pk: s.pk.clone(), sk: sk2.raw() })
+            Ok(KState::new(pk.as_ref(), sk2.as_ref()))
         }
         Act::PkRoundTrip => {
             let b = pk.to_bytes().map_err(|p| pe("PublicKey::into_bytes", p))?;
             let pk2 = (api.pk_from_bytes)(&b)
                 .map_err(|p| pe("PublicKey::try_from_bytes", p))?
                 .map_err(|e| format!("PublicKey::try_from_bytes rejected the library's own serialisation: {e}"))?;
-            Ok(KState { pk: pk2.raw(), sk: s.sk.clone() })
+            Ok(KState::new(pk2.as_ref(), sk.as_ref()))
         }
         Act::Derive => {
             let pk2 = sk.derive_pk().map_err(|p| pe("get_public_key", p))?;
-            Ok(KState { pk: pk2.raw(), sk: s.sk.clone() })
+            Ok(KState::new(pk2.as_ref(), sk.as_ref()))
         }
         Act::CloneSk => {
             let sk2 = sk.clone_box().map_err(|p| pe("PrivateKey::clone", p))?;
-            Ok(KState { pk: s.pk.clone(), sk: sk2.raw() })
+            Ok(KState::new(pk.as_ref(), sk2.as_ref()))
         }
         Act::ClonePk => {
             let pk2 = pk.clone_box().map_err(|p| pe("PublicKey::clone", p))?;
-            Ok(KState { pk: pk2.raw(), sk: s.sk.clone() })
+            Ok(KState::new(pk2.as_ref(), sk.as_ref()))
         }
     }
 }
@@ -231,17 +283,12 @@ pub fn run(api: &'static SetApi, cfg: &E1Cfg, rep: &mut Report) -> E1Result {
                             _ => cfg.oracles.c09,
                         };
                         if on {
-                            let which = if s2.pk != s.pk { "public" } else { "private" };
-                            let first_diff = if s2.pk != s.pk {
-                                s.pk.iter().zip(&s2.pk).position(|(a, b)| a != b)
-                            } else {
-                                s.sk.iter().zip(&s2.sk).position(|(a, b)| a != b)
-                            };
+                            let which = s2.diff(&s);
                             rep.violate(Violation {
-                                key: format!("e1:{a:?}:state-changed:{which}"),
+                                key: format!("e1:{a:?}:state-changed:{}", which.split(' ').next().unwrap_or("")),
                                 summary: format!(
-                                    "ML-DSA-{}: {a:?} changed the in-memory {which} key (first differing struct byte {:?}) after path {:?} from seed {}",
-                                    p.id, first_diff, reached.path, hex(&cfg.seeds[reached.origin])
+                                    "ML-DSA-{}: {a:?} produced a key pair that differs from its source in the {which}, after path {:?} from seed {}",
+                                    p.id, reached.path, hex(&cfg.seeds[reached.origin])
                                 ),
                                 replay: replay_json(api, &cfg.seeds[reached.origin], &r2, json!(null)),
                             });
